@@ -3,8 +3,10 @@
 (* A behaviour is the list of things the *environment* does; the harness plays them:     *)
 (*   <<"commit">>            upper layer commits the next data PDU                       *)
 (*   <<"read">>              upper layer reads (and frees) the oldest received PDU       *)
-(*   <<"x", out, ch, m>>     connection event: the central transmits (ch = 1: new data   *)
-(*                           PDU if it is free to choose, 0: empty PDU); out = what the  *)
+(*   <<"x", out, ch, m>>     connection event: the central transmits, if it is free to   *)
+(*                           choose, ch = 0: empty PDU, 1: new data PDU, 2: PDU without  *)
+(*                           payload and the reserved LLID 0, 3: new PDU with payload    *)
+(*                           and the reserved LLID 0; out = what the                     *)
 (*                           channel does: lost | crc | mic | ok | enc (nobuf is decided *)
 (*                           by the real buffer; enc = CRC ok on an encrypted link: the  *)
 (*                           harness lets the MIC fail iff the buffer's receive counter  *)
@@ -13,7 +15,8 @@
 (*   <<"r", pout>>           the central receives the answer: lost | ok | nak            *)
 (* The generator follows one path of LLData per behaviour (the answer an implementation  *)
 (* most likely gives: new data if there is some, acknowledgement used on a MIC failure,  *)
-(* not used without buffer); the real answer is judged by LLDataTrace, not by this path. *)
+(* not used without buffer, reserved-LLID PDUs acknowledged, counted and dropped); the   *)
+(* real answer is judged by LLDataTrace, not by this path.                               *)
 (*                                                                                       *)
 (* Mode: "plain" no MIC failures (C15); "enc" encrypted link: a retransmission of a data *)
 (*       PDU the peripheral already accepted (and counted) fails its MIC, nothing else   *)
@@ -40,7 +43,8 @@ GViewTrans == <<vars, Last>>
 GViewMic   == <<vars, Last # <<>> /\ Last[1] = "x" /\ Last[4] = "mic">>
 
 \* the PDU the central puts on air for choice ch
-CPdu(ch) == IF cCur # <<>> THEN cCur[1] ELSE IF ch = 1 THEN MkPdu(Len(cData) + 1) ELSE Empty
+CPdu(ch) == IF cCur # <<>> THEN cCur[1]
+            ELSE CASE ch = 1 -> MkPdu(Len(cData) + 1) [] ch = 3 -> MkPdu0(Len(cData) + 1) [] ch = 2 -> Empty0 [] OTHER -> Empty
 
 Accepted2(p) == IsData(p) /\ cCur # <<>> /\ cSn # pNesn       \* retransmission of an accepted data PDU
 ScriptOuts(p) ==
@@ -54,16 +58,18 @@ GNext ==
           /\ (Len(committed) - txCtr < TxCap) \/ Last # <<"commit">>     \* no repeated failing commits
           /\ Commit(MkPdu(Len(committed) + 1), Len(committed) - txCtr < TxCap)
           /\ Do(<<"commit">>)
-       \/ /\ air = <<>> /\ stored # <<>>
-          /\ Read(Head(stored))
+       \/ /\ air = <<>> /\ Real(stored) # <<>>
+          /\ Read(Real(stored)[1], Len(Real(stored)) > 1)
           /\ Do(<<"read">>)
-       \/ \E ch \in 0..1 :
-            /\ ch = 1 => (cCur = <<>> /\ Len(cData) < MaxC)
+       \/ \E ch \in 0..3 :
+            /\ ch # 0 => cCur = <<>>                         \* the central is free to choose
+            /\ ch \in {1, 3} => Len(cData) < MaxC
             /\ \E so \in ScriptOuts(CPdu(ch)) :
-                 LET out == IF so # "lost" /\ Len(stored) >= RxCap THEN "nobuf"
+                 LET out == IF so # "lost" /\ Len(Real(stored)) >= RxCap THEN "nobuf"
                             ELSE IF so = "enc" THEN (IF Accepted2(CPdu(ch)) THEN "mic" ELSE "ok")
-                            ELSE so IN
-                 /\ Exchange([sn |-> cSn, nesn |-> cNesn, pdu |-> CPdu(ch)], out, out = "mic", TRUE)
+                            ELSE so
+                     c   == [sn |-> cSn, nesn |-> cNesn, pdu |-> CPdu(ch)] IN
+                 /\ Exchange(c, out, out = "mic", TRUE, TRUE, Real(StoredAfter(c, out, TRUE)) # <<>>)
                  /\ Do(<<"x", so, ch, out>>)
        \/ \E pout \in POutcomes : CentralRx(pout) /\ Do(<<"r", pout>>)
 
